@@ -28,6 +28,9 @@ MaxN    == IF Tier = "quick" THEN 3 ELSE 4
 LettersOf(f) == 1..(MaxN + 1) \cup (IF Tier # "quick" /\ f = "evyq_text" THEN {26} ELSE {})
 Letters == 1..(MaxN + 1) \cup {26}
 Outputs == 0..2
+\* in the forms whose choices are programs a choice can also print the question's text WITHOUT the final
+\* line break (printf): output 3 differs from output 0 only in that newline - and is therefore not a match
+OutputsOf(f) == IF f \in {"textq_evy", "link"} THEN 0..3 ELSE Outputs
 Forms   == IF Tier = "quick" THEN {"evyq_text", "textq_evy", "svg"}
            ELSE {"evyq_text", "evyq_inline", "textq_evy", "link", "svg"}
 
@@ -39,7 +42,7 @@ vars == <<pc, q, marked, matching, verdict>>
 
 \* every cell: form x answer type x number of choices x assignment of outputs x marked set
 Init == /\ \E n \in 2..MaxN : \E a \in {"single-choice", "multiple-choice"} : \E f \in Forms :
-             \E o \in [1..n -> Outputs] : \E m \in Marks(a, f) : q = Question(f, a, n, o, m)
+             \E o \in [1..n -> OutputsOf(f)] : \E m \in Marks(a, f) : q = Question(f, a, n, o, m)
         /\ pc = "read" /\ marked = {} /\ matching = {} /\ verdict = "none"
 
 ReadAnswer == /\ pc = "read" /\ marked' = q.marked /\ pc' = "run"
